@@ -797,6 +797,8 @@ class Model(object):
                 raise NotConst("name %s is not a constant" % node.id)
             if node.id in _TYPE_BUILTINS:
                 return TypeMarker(node.id)
+            if node.id in m.functions or node.id in ("sorted", "len", "min", "max", "sum", "any", "all", "reversed", "enumerate", "zip"):
+                return TypeMarker(node.id)          # a function named in a table (a converter column): carried by name
             raise NotConst("unknown name %s" % node.id)
         if isinstance(node, ast.Attribute):
             d = dotted(node)
